@@ -103,3 +103,44 @@ def refForward [Add α] [Sub α] [Mul α] [OfNat α 0] (s : α) (h0o h1o h0a h0b
 
 end Spec
 end WV
+
+/-! ### the reference inverse pyramid (`dtcwt.numpy.Transform2d.inverse`), one channel, every level present
+
+Coarse to fine; at each level ≥ 2 the columns are synthesised first, then the rows, and the result is cropped `[1:-1]`
+per axis when it is larger than twice the next finer band (the padding the forward pass added). -/
+namespace WV
+namespace Spec
+variable {α : Type}
+
+def refInvLevel2 [Add α] [Sub α] [Neg α] [Mul α] [OfNat α 0] (s : α) (g0a g0b g1a g1b : List α) (Z : Img α)
+    (o : List (Cplx α)) : Img α :=
+  let (lh, hl, hh) := orientationsToHighs s o
+  let y1 := iadd (alongH (colifilt g0b g0a false) Z) (alongH (colifilt g1b g1a true) lh)
+  let y2 := iadd (alongH (colifilt g0b g0a false) hl) (alongH (colifilt g1b g1a true) hh)
+  iadd (alongW (colifilt g0b g0a false) y1) (alongW (colifilt g1b g1a true) y2)
+
+def refInvLevel1 [Add α] [Sub α] [Neg α] [Mul α] [OfNat α 0] (s : α) (g0o g1o : List α) (Z : Img α)
+    (o : List (Cplx α)) : Img α :=
+  let (lh, hl, hh) := orientationsToHighs s o
+  let y1 := iadd (alongH (colfilter g0o) Z) (alongH (colfilter g1o) lh)
+  let y2 := iadd (alongH (colfilter g0o) hl) (alongH (colfilter g1o) hh)
+  iadd (alongW (colfilter g0o) y1) (alongW (colfilter g1o) y2)
+
+/-- everything coarser than `finer` synthesised and cropped to twice the size of `finer`;
+`coarser` = the levels above `finer`, finest first -/
+def refInvGo [Add α] [Sub α] [Neg α] [Mul α] [OfNat α 0] (s : α) (g0a g0b g1a g1b : List α) :
+    List (Cplx α) → List (List (Cplx α)) → Img α → Img α
+  | _, [], Z => Z
+  | finer, b :: rest, Z =>
+    let Z' := refInvGo s g0a g0b g1a g1b b rest Z
+    let Y := refInvLevel2 s g0a g0b g1a g1b Z' b
+    cropToHighs Y (bandSize finer).1 (bandSize finer).2
+
+/-- `Transform2d.inverse` on `(low, [level 1, level 2, …])` -/
+def refInverse [Add α] [Sub α] [Neg α] [Mul α] [OfNat α 0] (s : α) (g0o g1o g0a g0b g1a g1b : List α) (low : Img α) :
+    List (List (Cplx α)) → Img α
+  | [] => low
+  | b1 :: rest => refInvLevel1 s g0o g1o (refInvGo s g0a g0b g1a g1b b1 rest low) b1
+
+end Spec
+end WV
